@@ -458,6 +458,13 @@ def aead_shards(quick):
     for low in ("fffffffe", "ffffffff"):
         for m in ((33,) if quick else (17, 33, 65)):
             sh.append(("GCM", "AES", 16, 16, (4, 16) if quick else LEGAL_T["GCM"], 17, m, 0, "j0-low32=" + low))
+    # associated data whose length crosses the boundaries of the modes' length encodings (CCM: 2-octet form up to
+    # 0xFEFF, then ff fe + 4 octets), reduced candidate alphabet (gen_aead_big)
+    for alen in (65279, 65280, 65281, 65535, 65536):
+        sh.append(("CCM", "AES", 16, 11, (16,) if quick else (4, 16), alen, 17, 0, "big"))
+    for mode, nl in (("GCM", 12), ("EAX", 16), ("OCB", 15), ("CHACHA", 12)):
+        for alen in ((65536,) if quick else (65535, 65536)):
+            sh.append((mode, "AES" if mode != "CHACHA" else "-", 16 if mode != "CHACHA" else 32, nl, (16,), alen, 17, 0, "big"))
     return sh
 
 
@@ -904,6 +911,33 @@ def _gcm_nonce_for_j0(key, target16):
     return n
 
 
+def gen_aead_big(g, T):
+    """reduced alphabet for associated data of tens of kilobytes (the AAD length crosses a boundary of the mode's
+    length encoding): the authentic tuple, the specification's tuple, and the changes that touch the AAD ends,
+    its length, the tag ends and the AAD/ciphertext boundary"""
+    key, nonce, aad, bs = g.key, g.nonce, g.aad, g.bs
+    ct, tag = g.sealed[T]
+    yield ("authentic", "", key, nonce, aad, ct, tag, True)
+    rct, rtag = g.refsealed[T]
+    if (rct, rtag) != (ct, tag):
+        yield ("authentic-by-spec", "", key, nonce, aad, rct, rtag, True)
+    for i in (0, 8 * len(tag) - 1):
+        yield ("tag-bitflip", i, key, nonce, aad, ct, _flip(tag, i), False)
+    for i in (0, 8 * len(aad) - 1, 8 * 255 + 7, 8 * (len(aad) - 256)):
+        yield ("aad-bitflip", i, key, nonce, _flip(aad, i), ct, tag, False)
+    yield ("aad-truncated", "last", key, nonce, aad[:-1], ct, tag, False)
+    yield ("aad-truncated", "first", key, nonce, aad[1:], ct, tag, False)
+    yield ("aad-truncated", "256", key, nonce, aad[:-256], ct, tag, False)
+    yield ("aad-extended", "00", key, nonce, aad + b"\x00", ct, tag, False)
+    yield ("aad-extended", "256", key, nonce, aad + bytes(256), ct, tag, False)
+    if ct:
+        yield ("boundary-shift", "ct->aad/1", key, nonce, aad + ct[:1], ct[1:], tag, False)
+    yield ("boundary-shift", "aad->ct/1", key, nonce, aad[:-1], aad[-1:] + ct, tag, False)
+    cC, tC = g.sealedC[T]
+    yield ("authentic", "message-C", key, nonce, aad, cC, tC, False)
+    yield ("splice", "same-nonce ctC+tagA", key, nonce, aad, cC, tag, False)
+
+
 def build_cfg(mode, ciph, kl, nl, ashape, ml, variant, special=None):
     g = Cfg()
     g.mode, g.ciph = mode, ciph
@@ -912,7 +946,7 @@ def build_cfg(mode, ciph, kl, nl, ashape, ml, variant, special=None):
     lab = "%s/%s/%s/%s/%s/%s" % (mode, ciph, kl, nl, ashape, ml)
     g.key = _val(variant, lab + "/key", kl)
     g.nonce = None if nl is None else _val(variant, lab + "/nonce", nl)
-    if special:
+    if special and special != "big":
         assert mode == "GCM" and nl == 16 and special.startswith("j0-low32=")
         g.nonce = _gcm_nonce_for_j0(g.key, seeded("c01/" + lab + "/j0", 12) + bytes.fromhex(special[9:]))
     if mode == "SIV":
@@ -934,11 +968,15 @@ def run_shard(shard, acc, every):
     mode, ciph, kl, nl, tlens, ashape, ml, variant = shard[:8]
     special = shard[8] if len(shard) > 8 else None
     g = build_cfg(mode, ciph, kl, nl, ashape, ml, variant, special)
+    if special == "big":
+        g.legal_t = tuple(tlens)
     for T in g.legal_t:
         g.sealed[T] = lib_seal(mode, ciph, g.key, g.nonce, T, g.aad, g.pt)
         g.refsealed[T] = spec_seal(mode, ciph, g.key, g.nonce, T, g.aad, g.pt)
     pol = RefPolicy(every)
-    gen = gen_siv if mode == "SIV" else gen_aead
+    gen = gen_siv if mode == "SIV" else gen_aead_big if special == "big" else gen_aead
+    if special == "big":
+        pol = RefPolicy(1)
     for T in tlens:
         g.sealedB[T] = lib_seal(mode, ciph, g.key, g.nonceB, T, g.aadB, g.ptB)
         g.sealedC[T] = lib_seal(mode, ciph, g.key, g.nonce, T, g.aad, g.ptC)
